@@ -227,7 +227,9 @@ theorem parseFormatPre_reads (cfg : Cfg) (s : St) (src : Src) :
   split
   · rename_i s1 src1 h
     have hv := nextvis_eq_reads h
-    split <;> exact hv
+    split
+    · exact hv
+    · split <;> exact hv
   · rename_i c s1 src1 h
     have hv := nextvis_eq_reads h
     split
@@ -243,7 +245,9 @@ theorem parseFormatPre_pos (cfg : Cfg) (s : St) (src : Src) (h : 0 < (parseForma
   unfold parseFormatPre
   simp only []
   split
-  · split <;> nopos
+  · split
+    · nopos
+    · split <;> nopos
   · rename_i c s1 src1 h
     have hv := nextvis_some cfg.fmt s src c s1 src1 h
     intro _
@@ -305,7 +309,7 @@ theorem parseFormatEnc_reads (cfg : Cfg) (prev : Nat) (s : St) (src : Src) :
   · split
     · exact encSection_reads _ _ _
     · split
-      · rename_i h; have hv := nextvis_eq_reads h; exact hv
+      · rename_i h; have hv := nextvis_eq_reads h; split <;> exact hv
       · rename_i h; have hv := nextvis_eq_reads h
         split
         · exact hv
@@ -330,7 +334,7 @@ theorem parseFormatEnc_pos (cfg : Cfg) (prev : Nat) (s : St) (src : Src)
   · split
     · intro h; exact (encSection_pos _ _ _ h).2
     · split
-      · simp
+      · split <;> nopos
       · rename_i c s1 src1 h
         have hv := nextvis_some cfg.fmt s src c s1 src1 h
         intro _
